@@ -47,14 +47,14 @@ COMPOUTS = {'compAddBcast', 'compDeleteBcast', 'compUpdateBcast', 'compAddResp',
 
 PROPS = {
     'C02': dict(modules=['Hagall.Props.C02', 'Hagall.Props.C02Conc'], profiles=['mixed', 'join', 'module', 'custom', 'pose'], n=(240, 4000),
-                tools=['drive', 'extract', 'wire'], extra=['wire_harness', 'conc_explore'],
+                tools=['wire-race', 'drive', 'extract', 'wire'], extra=['race_harness', 'wire_harness', 'conc_explore'],
                 focus={'join', 'entityAdd', 'entityDelete', 'updatePose', 'custom', 'action', 'assetAdd'},
                 topics=slice_of(['join', 'entityAdd', 'entityDelete', 'updatePose', 'custom', 'action', 'assetAdd', 'disconnect'],
                                 relay_only=True, outs=RELAYS)),
     'C04': dict(extra=['conc_explore'], modules=['Hagall.Props.C04'], profiles=['mixed', 'comp', 'module', 'malformed', 'latency'], n=(240, 4000),
                 focus=None,
                 topics=slice_of(ALL_TOPICS, kinds=['outcome'], answer_only=True, outs=ANSWERS)),
-    'C05': dict(extra=['conc_explore'], modules=['Hagall.Props.C05'], profiles=['pose', 'mixed', 'module'], n=(240, 4000),
+    'C05': dict(tools=['drive', 'extract', 'wire-race'], extra=['race_harness', 'conc_explore'], modules=['Hagall.Props.C05'], profiles=['pose', 'mixed', 'module'], n=(240, 4000),
                 focus={'entityDelete', 'updatePose', 'assetAdd'},
                 topics=slice_of(['entityDelete', 'updatePose', 'assetAdd'],
                                 outs={'error', 'entityDeleteResp', 'entityDeleteBcast', 'poseBcast', 'assetAddResp', 'assetAddBcast'})),
@@ -62,21 +62,21 @@ PROPS = {
                 focus={'join', 'entityAdd', 'compAdd', 'action', 'assetAdd'},
                 topics=slice_of(['disconnect', 'join', 'receipt'], kinds=['outcome'],
                                 outs={'leaveBcast', 'entityDeleteBcast', 'sessionState', 'vikjaState', 'odalState'})),
-    'C07': dict(modules=['Hagall.Props.C07', 'Hagall.Props.C07Conc'], profiles=['join', 'mixed'], n=(240, 4000), focus={'join'}, tools=['drive', 'extract', 'wire'], extra=['wire_harness', 'conc_explore'],
+    'C07': dict(modules=['Hagall.Props.C07', 'Hagall.Props.C07Conc'], profiles=['join', 'mixed'], n=(240, 4000), focus={'join'}, tools=['wire-race', 'drive', 'extract', 'wire'], extra=['race_harness', 'wire_harness', 'conc_explore'],
                 topics=slice_of(['join', 'disconnect'], kinds=['state', 'gauge'], outs={'joinResp', 'error'})),
     'C10': dict(modules=['Hagall.Props.C10', 'Hagall.Props.C07Conc'], profiles=['join', 'mixed', 'comp', 'module'], n=(240, 4000), focus={'join', 'entityAdd', 'typeAdd', 'assetAdd'},
-                tools=['drive', 'extract', 'wire'], extra=['wire_harness', 'conc_explore'],
+                tools=['wire-race', 'drive', 'extract', 'wire'], extra=['race_harness', 'wire_harness', 'conc_explore'],
                 topics=slice_of(['join', 'entityAdd', 'typeAdd', 'typeGetName', 'typeGetId', 'assetAdd'], kinds=['state'], answer_only=True,
                                 outs={'joinResp', 'entityAddResp', 'typeAddResp', 'typeNameResp', 'typeIdResp', 'assetAddResp'})),
-    'C12': dict(extra=['conc_explore'], modules=['Hagall.Props.C12'], profiles=['comp', 'mixed'], n=(240, 4000), focus=set(COMP) | {'entityDelete'},
+    'C12': dict(tools=['drive', 'extract', 'wire-race'], extra=['race_harness', 'conc_explore'], modules=['Hagall.Props.C12'], profiles=['comp', 'mixed'], n=(240, 4000), focus=set(COMP) | {'entityDelete'},
                 topics=slice_of(COMP + ['entityDelete', 'join', 'disconnect'], outs=COMPOUTS | {'sessionState'})),
-    'C13': dict(extra=['conc_explore'], modules=['Hagall.Props.C13'], profiles=['comp', 'mixed', 'subs'], n=(240, 4000),
+    'C13': dict(tools=['drive', 'extract', 'wire-race'], extra=['race_harness', 'conc_explore'], modules=['Hagall.Props.C13'], profiles=['comp', 'mixed', 'subs'], n=(240, 4000),
                 focus={'compAdd', 'compDelete', 'compUpdate', 'subscribe', 'unsubscribe'},
                 topics=slice_of(['compAdd', 'compDelete', 'compUpdate', 'subscribe', 'unsubscribe'],
                                 outs={'compAddBcast', 'compDeleteBcast', 'compUpdateBcast', 'subscribeResp', 'unsubscribeResp', 'error'})),
     'C14': dict(extra=['wire_harness'], tools=['drive', 'extract', 'wire'], modules=['Hagall.Props.C14'], profiles=['custom', 'mixed', 'crowd'], n=(240, 4000), focus={'custom'},
                 topics=slice_of(['custom'])),
-    'C16': dict(extra=['conc_explore'], modules=['Hagall.Props.C16', 'Hagall.Props.C01Conc'], profiles=['module', 'mixed'], n=(240, 4000), focus={'action', 'assetAdd'},
+    'C16': dict(tools=['drive', 'extract', 'wire-race'], extra=['race_harness', 'conc_explore'], modules=['Hagall.Props.C16', 'Hagall.Props.C01Conc'], profiles=['module', 'mixed'], n=(240, 4000), focus={'action', 'assetAdd'},
                 topics=slice_of(['action', 'assetAdd', 'join', 'entityDelete', 'disconnect'],
                                 outs={'vikjaState', 'odalState', 'actionResp', 'actionBcast', 'assetAddResp', 'assetAddBcast', 'error'},
                                 pred=lambda d: not (d.get('topic') in ('entityDelete', 'disconnect') and d['outs'] <= {'error'}))),
@@ -91,15 +91,15 @@ PROPS['C15'] = dict(modules=['Hagall.Props.C15'], profiles=['mixed'], n=(20, 20)
                     extra=['auth_harness'], topics=slice_of([], kinds=[]))
 
 PROPS['C20'] = dict(modules=['Hagall.Props.C20', 'Hagall.Props.C20Prim'], profiles=['module', 'join', 'mixed'], n=(120, 2000),
-                    focus={'quadSample', 'groundPlane', 'region', 'join'}, tools=['drive', 'extract', 'grid'], extra=['grid_harness'],
+                    focus={'quadSample', 'groundPlane', 'region', 'join'}, tools=['wire-race', 'drive', 'extract', 'grid'], extra=['race_harness', 'grid_harness'],
                     topics=slice_of(['quadSample', 'groundPlane', 'region', 'debugInfo'], outs={'groundPlaneResp', 'regionResp', 'debugInfoResp', 'error'}),
                     trusted=['go/cmd/grid (grid harness, exact-arithmetic monitors)', 'Lean Float32 = IEEE binary32 as compiled by leanc; Go float32 on amd64 without FMA'])
 
-PROPS['C11'] = dict(modules=['Hagall.Props.C11'], profiles=['pose', 'mixed', 'join'], n=(240, 4000), focus={'updatePose', 'entityDelete', 'join'}, extra=['conc_explore'],
+PROPS['C11'] = dict(tools=['drive', 'extract', 'wire-race'], modules=['Hagall.Props.C11'], profiles=['pose', 'mixed', 'join'], n=(240, 4000), focus={'updatePose', 'entityDelete', 'join'}, extra=['race_harness', 'conc_explore'],
                     topics=slice_of(['updatePose', 'entityDelete', 'join', 'disconnect'], kinds=['queue'],
                                     outs={'poseBcast', 'sessionState', 'entityDeleteBcast'}))
 
-PROPS['C03'] = dict(modules=['Hagall.Props.C03', 'Hagall.Props.C03Trace', 'Hagall.Props.C03Conc'], profiles=['join', 'mixed', 'module', 'comp'], n=(240, 4000), focus={'join'}, extra=['noninterference', 'conc_explore'],
+PROPS['C03'] = dict(tools=['drive', 'extract', 'wire-race'], modules=['Hagall.Props.C03', 'Hagall.Props.C03Trace', 'Hagall.Props.C03Conc'], profiles=['join', 'mixed', 'module', 'comp'], n=(240, 4000), focus={'join'}, extra=['race_harness', 'noninterference', 'conc_explore'],
                     topics=slice_of(ALL_TOPICS + ['disconnect'], kinds=['state'],
                                     pred=lambda d: d.get('kind') != 'delivery' or d.get('conn') != d.get('actor')
                                     or bool(d['outs'] & {'sessionState', 'vikjaState', 'odalState'})))
